@@ -64,6 +64,7 @@ ForwardingPlans == {"MarkCompact", "Compressor"}
 ConcPlans == {"ConcurrentImmix"}
 \* WorkBucketStage::SecondRoots (mark-compact-style plans scan the roots a second time there)
 SecondRoots == NStages - 6
+VMRefStage == NStages - 8          \* WorkBucketStage::VMRefClosure
 ScanPhase == IF open[SecondRoots] THEN 2 ELSE 1
 
 Fail(tag) == PrintT("ROW_REJECTED l=" \o ToString(l) \o " tag=" \o tag)
@@ -134,14 +135,19 @@ DoSnapshot(e) ==
   LET w == e.w + 1 IN
   IF /\ G("C14:snapshot-without-park", tr.cbw = w /\ pc[w] = "tolock")
      /\ G("C14:last-parked-while-others-run", OthersWaiting(w))
-     /\ G("C14:goal-diverges", goal = e.goal)
+     /\ G(IF goal \in ExitGoals \/ e.goal \in ExitGoals THEN "C16:goal-diverges"
+          ELSE "C14:goal-diverges", goal = e.goal)
      /\ G("C14:requests-diverge", requests = ToSet(e.req))
      /\ G("C15:bucket-open-flags-diverge", open = Flags(e.open))
      /\ G("C15:bucket-enabled-flags-diverge", enabled = Flags(e.enabled))
-     /\ G("C15:designated-work-diverges",
+     /\ G("C15:designated-work-diverges", tr.lenient \/
           {v \in Workers : des[v] # EmptyBag} = {x + 1 : x \in ToSet(e.desig)})
   THEN /\ q' = SnapQ(e) /\ pq' = [b \in Stage |-> EmptyBag] /\ sentinel' = SnapSent(e)
-       /\ UNCHANGED <<wvars, lvars, bvars, parked, cvars, gvars, mvars, fvars, bounds, panic,
+       \* after a resynchronisation the designated queues are re-read at every snapshot
+       /\ des' = IF tr.lenient
+                 THEN [v \in Workers |-> IF (v - 1) \in ToSet(e.desig) THEN One(DesPkt) ELSE EmptyBag]
+                 ELSE des
+       /\ UNCHANGED <<wvars, loc, bvars, parked, cvars, gvars, mvars, fvars, bounds, panic,
                       cnt, flags>>
        /\ tr' = [tr EXCEPT !.snap = e, !.cbOpen = open, !.cbEn = enabled, !.cbResumes = 0]
   ELSE FailStep
@@ -183,7 +189,8 @@ DoLastParked(e) ==
     LET g == NextGoal(requests) IN
     IF /\ G(IF g \in ExitGoals \/ e.goal \in ExitGoals THEN "C16:goal-priority"
             ELSE "C14:goal-chosen", e.goal = g)
-       /\ G("C14:last-parked-result", e.result = ResultOf(g))
+       /\ G(IF g \in ExitGoals THEN "C16:exit-goal-result" ELSE "C14:last-parked-result",
+            e.result = ResultOf(g))
        /\ G("C14:requests-after-respond", ToSet(e.req) = requests \ {g})
        /\ G("C15:flags-changed-by-idle-callback", tr.cbOpen = open /\ tr.cbEn = enabled)
        \* NoStuck (C14): everybody is about to wait, so nothing may be runnable - unless a thread
@@ -198,8 +205,10 @@ DoLastParked(e) ==
     IF ~G("C14:assertion-" \o LastParkedAssert, LastParkedAssert = "none") THEN FailStep
     ELSE IF GcMore # "none" THEN
       LET expOpen == IF GcMore = "opened" THEN Upd.open ELSE open
-          arm == IF GcMore = "sentinel" THEN Cardinality(SentStages)
-                 ELSE IF GcMore = "opened" /\ Upd.how = "sentinel" THEN 1 ELSE 0
+          \* C13: the VMProcessWeakRefs sentinel was scheduled on the drained VMRefClosure stage
+          arm == IF GcMore = "sentinel" /\ VMRefStage \in SentStages THEN 1
+                 ELSE IF GcMore = "opened" /\ Upd.how = "sentinel" /\ Upd.hit = VMRefStage THEN 1
+                 ELSE 0
       IN
       IF /\ G("C15:found-more-work-result", e.result = "WakeAll" /\ e.goal = "Gc")
          /\ G("C15:opened-stages", tr.cbOpen = expOpen)
@@ -261,7 +270,7 @@ DoRequestFlag(e) ==
             /\ tr' = tr
        ELSE FailStep
   ELSE IF G("C14:flag-cleared-before-mutators-stopped", tr.stopped)
-       THEN /\ flag' = FALSE
+       THEN /\ flag' = (IF "now" \in DOMAIN e THEN e.now ELSE FALSE)
             /\ UNCHANGED <<wvars, lvars, qvars, bvars, parked, cvars, gvars, world, mpc, fvars,
                            bounds, panic, cnt, flags>>
             /\ tr' = tr
@@ -464,7 +473,8 @@ DoRespawn(e) ==
   ELSE FailStep
 
 DoCrash(e) ==
-  /\ Fail(IF "hang" \in DOMAIN e THEN "C14:hang" ELSE "crash")
+  /\ Fail(IF "exitHang" \in DOMAIN e THEN "C16:workers-did-not-exit"
+          ELSE IF "hang" \in DOMAIN e THEN "C14:hang" ELSE "crash")
   /\ FailStep
 
 ------------------------------------------------------------------------------
